@@ -804,6 +804,28 @@ impl<S: USet> Eng<S> {
         self.post_check();
     }
 
+    /// the current placeholder, the next candidate for it, or their neighbours (C20)
+    pub fn gen_placeholder_value(&mut self, i: usize, regime: u64) -> u64 {
+        let w = S::W as u64;
+        let heap = self.slots[i].as_ref().and_then(|s| s.repr().1);
+        match heap {
+            Some((_, cap, bits, a)) if bits == 0 || bits > w => match self.rng.below(5) {
+                0 | 1 => S::norm(bits),
+                2 => S::norm(det_rand64(cap, bits)),
+                3 => {
+                    // what the scan would skip to
+                    let mut c = det_rand64(cap, bits) & S::max_elem();
+                    while c <= w || a.contains(&c) {
+                        c = c.wrapping_add(1) & S::max_elem();
+                    }
+                    c
+                }
+                _ => S::norm(bits.wrapping_add(1)),
+            },
+            _ => self.gen_value(i, regime),
+        }
+    }
+
     // ---------------------------------------------------------------- value generation
     pub fn gen_value(&mut self, i: usize, regime: u64) -> u64 {
         let w = S::W as u64;
